@@ -1,3 +1,592 @@
 package main
 
-func (d *drv) runFormats(g *gen, n int) map[string]any { return map[string]any{"documents": 0} }
+// Part (b) of driver "config": one logical client configuration, written with the documented key
+// names (a table held here, NOT derived from the struct tags of the code under test) as TOML, YAML
+// and JSON by three small emitters, loaded by the real config.LoadConfigure / LoadClientConfig in
+// strict and non-strict mode.  Observed on the Go side only (third-party parsers): the structures
+// must be identical to each other and to the configuration the document was written from;
+// an unknown key at any nesting level must be rejected in strict mode by all three formats and
+// ignored in non-strict mode.
+
+import (
+	"fmt"
+	"os"
+	"path/filepath"
+	"reflect"
+	"regexp"
+	"sort"
+	"strconv"
+	"strings"
+
+	"github.com/fatedier/frp/pkg/config"
+	v1 "github.com/fatedier/frp/pkg/config/v1"
+)
+
+type kv struct {
+	k string
+	v any // string | int64 | bool | []string | obj | []obj
+}
+type obj []kv
+
+// ---- emitters ----
+
+func jstr(s string) string {
+	var b strings.Builder
+	b.WriteByte('"')
+	for _, r := range s {
+		switch {
+		case r == '"':
+			b.WriteString(`\"`)
+		case r == '\\':
+			b.WriteString(`\\`)
+		case r == '\n':
+			b.WriteString(`\n`)
+		case r == '\t':
+			b.WriteString(`\t`)
+		case r == '\r':
+			b.WriteString(`\r`)
+		case r < 0x20 || r == 0x7f:
+			fmt.Fprintf(&b, `\u%04x`, r)
+		default:
+			b.WriteRune(r)
+		}
+	}
+	b.WriteByte('"')
+	return b.String()
+}
+
+func strList(l []string) string {
+	items := []string{}
+	for _, s := range l {
+		items = append(items, jstr(s))
+	}
+	return "[" + strings.Join(items, ", ") + "]"
+}
+
+func emitJSON(v any, ind string) string {
+	switch x := v.(type) {
+	case string:
+		return jstr(x)
+	case int64:
+		return strconv.FormatInt(x, 10)
+	case bool:
+		return strconv.FormatBool(x)
+	case []string:
+		return strList(x)
+	case obj:
+		if len(x) == 0 {
+			return "{}"
+		}
+		var b strings.Builder
+		b.WriteString("{\n")
+		for i, e := range x {
+			b.WriteString(ind + "  " + jstr(e.k) + ": " + emitJSON(e.v, ind+"  "))
+			if i != len(x)-1 {
+				b.WriteString(",")
+			}
+			b.WriteString("\n")
+		}
+		b.WriteString(ind + "}")
+		return b.String()
+	case []obj:
+		if len(x) == 0 {
+			return "[]"
+		}
+		items := []string{}
+		for _, o := range x {
+			items = append(items, emitJSON(o, ind+"  "))
+		}
+		return "[" + strings.Join(items, ", ") + "]"
+	}
+	panic(fmt.Sprintf("emitJSON: %T", v))
+}
+
+func emitYAML(o obj, ind string) string {
+	var b strings.Builder
+	for _, e := range o {
+		key := ind + jstr(e.k) + ":"
+		switch x := e.v.(type) {
+		case string:
+			b.WriteString(key + " " + jstr(x) + "\n")
+		case int64:
+			b.WriteString(key + " " + strconv.FormatInt(x, 10) + "\n")
+		case bool:
+			b.WriteString(key + " " + strconv.FormatBool(x) + "\n")
+		case []string:
+			if len(x) == 0 {
+				b.WriteString(key + " []\n")
+			} else {
+				b.WriteString(key + "\n")
+				for _, s := range x {
+					b.WriteString(ind + "  - " + jstr(s) + "\n")
+				}
+			}
+		case obj:
+			if len(x) == 0 {
+				b.WriteString(key + " {}\n")
+			} else {
+				b.WriteString(key + "\n" + emitYAML(x, ind+"  "))
+			}
+		case []obj:
+			if len(x) == 0 {
+				b.WriteString(key + " []\n")
+			} else {
+				b.WriteString(key + "\n")
+				for _, it := range x {
+					if len(it) == 0 {
+						b.WriteString(ind + "  - {}\n")
+						continue
+					}
+					body := emitYAML(it, ind+"    ")
+					// first line of the element carries the dash
+					b.WriteString(ind + "  - " + strings.TrimPrefix(body, ind+"    "))
+				}
+			}
+		}
+	}
+	return b.String()
+}
+
+var bareKey = regexp.MustCompile(`^[A-Za-z0-9_-]+$`)
+
+func tkey(k string) string {
+	if bareKey.MatchString(k) {
+		return k
+	}
+	return jstr(k)
+}
+
+func emitTOML(o obj, path []string, b *strings.Builder) {
+	for _, e := range o {
+		switch x := e.v.(type) {
+		case string:
+			b.WriteString(tkey(e.k) + " = " + jstr(x) + "\n")
+		case int64:
+			b.WriteString(tkey(e.k) + " = " + strconv.FormatInt(x, 10) + "\n")
+		case bool:
+			b.WriteString(tkey(e.k) + " = " + strconv.FormatBool(x) + "\n")
+		case []string:
+			b.WriteString(tkey(e.k) + " = " + strList(x) + "\n")
+		case []obj:
+			if len(x) == 0 {
+				b.WriteString(tkey(e.k) + " = []\n")
+			}
+		}
+	}
+	for _, e := range o {
+		if x, ok := e.v.(obj); ok {
+			p := append(append([]string{}, path...), tkey(e.k))
+			b.WriteString("\n[" + strings.Join(p, ".") + "]\n")
+			emitTOML(x, p, b)
+		}
+	}
+	for _, e := range o {
+		if x, ok := e.v.([]obj); ok {
+			p := append(append([]string{}, path...), tkey(e.k))
+			for _, it := range x {
+				b.WriteString("\n[[" + strings.Join(p, ".") + "]]\n")
+				emitTOML(it, p, b)
+			}
+		}
+	}
+}
+
+// ---- logical configuration -> tree, with the documented key names ----
+
+func mapObj(m map[string]string) obj {
+	keys := make([]string, 0, len(m))
+	for k := range m {
+		keys = append(keys, k)
+	}
+	sort.Strings(keys)
+	o := obj{}
+	for _, k := range keys {
+		o = append(o, kv{k, m[k]})
+	}
+	return o
+}
+
+// put adds key k unless the value is the zero value and the coin says "leave it out"
+func (g *gen) put(o *obj, k string, v any) {
+	zero := false
+	switch x := v.(type) {
+	case string:
+		zero = x == ""
+	case int64:
+		zero = x == 0
+	case bool:
+		zero = !x
+	case []string:
+		zero = x == nil
+	case obj:
+		zero = x == nil
+	case []obj:
+		zero = x == nil
+	}
+	if zero {
+		return
+	}
+	*o = append(*o, kv{k, v})
+}
+
+func (g *gen) proxyTree(c v1.ProxyConfigurer) obj {
+	b := c.GetBaseConfig()
+	o := obj{{"name", b.Name}, {"type", b.Type}}
+	if b.Annotations != nil {
+		g.put(&o, "annotations", mapObj(b.Annotations))
+	}
+	tr := obj{}
+	g.put(&tr, "useEncryption", b.Transport.UseEncryption)
+	g.put(&tr, "useCompression", b.Transport.UseCompression)
+	g.put(&tr, "bandwidthLimit", b.Transport.BandwidthLimit.String())
+	g.put(&tr, "bandwidthLimitMode", b.Transport.BandwidthLimitMode)
+	g.put(&tr, "proxyProtocolVersion", b.Transport.ProxyProtocolVersion)
+	if len(tr) > 0 || g.chance(0.2) {
+		o = append(o, kv{"transport", tr})
+	}
+	if b.Metadatas != nil {
+		g.put(&o, "metadatas", mapObj(b.Metadatas))
+	}
+	lb := obj{}
+	g.put(&lb, "group", b.LoadBalancer.Group)
+	g.put(&lb, "groupKey", b.LoadBalancer.GroupKey)
+	if len(lb) > 0 {
+		o = append(o, kv{"loadBalancer", lb})
+	}
+	hc := obj{}
+	g.put(&hc, "type", b.HealthCheck.Type)
+	g.put(&hc, "timeoutSeconds", int64(b.HealthCheck.TimeoutSeconds))
+	g.put(&hc, "maxFailed", int64(b.HealthCheck.MaxFailed))
+	g.put(&hc, "intervalSeconds", int64(b.HealthCheck.IntervalSeconds))
+	g.put(&hc, "path", b.HealthCheck.Path)
+	if b.HealthCheck.HTTPHeaders != nil {
+		hs := []obj{}
+		for _, h := range b.HealthCheck.HTTPHeaders {
+			hs = append(hs, obj{{"name", h.Name}, {"value", h.Value}})
+		}
+		hc = append(hc, kv{"httpHeaders", hs})
+	}
+	if len(hc) > 0 {
+		o = append(o, kv{"healthCheck", hc})
+	}
+	g.put(&o, "localIP", b.LocalIP)
+	g.put(&o, "localPort", int64(b.LocalPort))
+	switch p := b.Plugin.ClientPluginOptions.(type) {
+	case *v1.UnixDomainSocketPluginOptions:
+		po := obj{{"type", b.Plugin.Type}}
+		g.put(&po, "unixPath", p.UnixPath)
+		o = append(o, kv{"plugin", po})
+	case *v1.HTTPProxyPluginOptions:
+		po := obj{{"type", b.Plugin.Type}}
+		g.put(&po, "httpUser", p.HTTPUser)
+		g.put(&po, "httpPassword", p.HTTPPassword)
+		o = append(o, kv{"plugin", po})
+	}
+	dom := func(d *v1.DomainConfig) {
+		g.put(&o, "customDomains", d.CustomDomains)
+		g.put(&o, "subdomain", d.SubDomain)
+	}
+	hdr := func(k string, h v1.HeaderOperations) {
+		if h.Set != nil {
+			o = append(o, kv{k, obj{{"set", mapObj(h.Set)}}})
+		}
+	}
+	switch cc := c.(type) {
+	case *v1.TCPProxyConfig:
+		g.put(&o, "remotePort", int64(cc.RemotePort))
+	case *v1.UDPProxyConfig:
+		g.put(&o, "remotePort", int64(cc.RemotePort))
+	case *v1.HTTPProxyConfig:
+		dom(&cc.DomainConfig)
+		g.put(&o, "locations", cc.Locations)
+		g.put(&o, "httpUser", cc.HTTPUser)
+		g.put(&o, "httpPassword", cc.HTTPPassword)
+		g.put(&o, "hostHeaderRewrite", cc.HostHeaderRewrite)
+		hdr("requestHeaders", cc.RequestHeaders)
+		hdr("responseHeaders", cc.ResponseHeaders)
+		g.put(&o, "routeByHTTPUser", cc.RouteByHTTPUser)
+	case *v1.HTTPSProxyConfig:
+		dom(&cc.DomainConfig)
+	case *v1.TCPMuxProxyConfig:
+		dom(&cc.DomainConfig)
+		g.put(&o, "httpUser", cc.HTTPUser)
+		g.put(&o, "httpPassword", cc.HTTPPassword)
+		g.put(&o, "routeByHTTPUser", cc.RouteByHTTPUser)
+		g.put(&o, "multiplexer", cc.Multiplexer)
+	case *v1.STCPProxyConfig:
+		g.put(&o, "secretKey", cc.Secretkey)
+		g.put(&o, "allowUsers", cc.AllowUsers)
+	case *v1.XTCPProxyConfig:
+		g.put(&o, "secretKey", cc.Secretkey)
+		g.put(&o, "allowUsers", cc.AllowUsers)
+	case *v1.SUDPProxyConfig:
+		g.put(&o, "secretKey", cc.Secretkey)
+		g.put(&o, "allowUsers", cc.AllowUsers)
+	}
+	return o
+}
+
+type commonL struct {
+	serverAddr string
+	serverPort int64
+	user       string
+	token      string
+	logLevel   string
+	poolCount  int64
+	protocol   string
+	webPort    int64
+}
+
+func (g *gen) commonTree(c commonL) obj {
+	o := obj{}
+	g.put(&o, "serverAddr", c.serverAddr)
+	g.put(&o, "serverPort", c.serverPort)
+	g.put(&o, "user", c.user)
+	au := obj{}
+	g.put(&au, "token", c.token)
+	if len(au) > 0 {
+		o = append(o, kv{"auth", au})
+	}
+	lg := obj{}
+	g.put(&lg, "level", c.logLevel)
+	if len(lg) > 0 {
+		o = append(o, kv{"log", lg})
+	}
+	tr := obj{}
+	g.put(&tr, "poolCount", c.poolCount)
+	g.put(&tr, "protocol", c.protocol)
+	if len(tr) > 0 {
+		o = append(o, kv{"transport", tr})
+	}
+	ws := obj{}
+	g.put(&ws, "port", c.webPort)
+	if len(ws) > 0 {
+		o = append(o, kv{"webServer", ws})
+	}
+	return o
+}
+
+// every object of the tree, with a label of its nesting level
+func walkObjs(o obj, label string, f func(label string, at *obj)) {
+	var rec func(p *obj, label string)
+	rec = func(p *obj, label string) {
+		f(label, p)
+		for i := range *p {
+			switch x := (*p)[i].v.(type) {
+			case obj:
+				// string->string maps accept any key: not a place for an unknown field
+				if k := (*p)[i].k; k == "annotations" || k == "metadatas" || k == "set" {
+					continue
+				}
+				rec(&x, label+"."+(*p)[i].k)
+				(*p)[i].v = x
+			case []obj:
+				for j := range x {
+					rec(&x[j], label+"."+(*p)[i].k+"[]")
+				}
+			}
+		}
+	}
+	rec(&o, label)
+}
+
+func deepCopy(o obj) obj {
+	r := make(obj, len(o))
+	for i, e := range o {
+		switch x := e.v.(type) {
+		case obj:
+			r[i] = kv{e.k, deepCopy(x)}
+		case []obj:
+			l := make([]obj, len(x))
+			for j := range x {
+				l[j] = deepCopy(x[j])
+			}
+			r[i] = kv{e.k, l}
+		case []string:
+			r[i] = kv{e.k, append([]string{}, x...)}
+		default:
+			r[i] = e
+		}
+	}
+	return r
+}
+
+func render(o obj) map[string][]byte {
+	var tb strings.Builder
+	emitTOML(o, nil, &tb)
+	return map[string][]byte{
+		"toml": []byte(tb.String()),
+		"yaml": []byte(emitYAML(o, "")),
+		"json": []byte(emitJSON(o, "") + "\n"),
+	}
+}
+
+var formatNames = []string{"toml", "yaml", "json"}
+
+func commonDump(c *v1.ClientCommonConfig) string {
+	return fmt.Sprintf("addr=%q port=%d user=%q token=%q level=%q to=%q maxDays=%d pool=%d proto=%q web=%d webAddr=%q method=%q",
+		c.ServerAddr, c.ServerPort, c.User, c.Auth.Token, c.Log.Level, c.Log.To, c.Log.MaxDays, c.Transport.PoolCount,
+		c.Transport.Protocol, c.WebServer.Port, c.WebServer.Addr, c.Auth.Method)
+}
+
+func (d *drv) runFormats(g *gen, n int) map[string]any {
+	st := map[string]int{}
+	levels := map[string]int{}
+	dir := filepath.Join(filepath.Dir(d.cfg.Out), "fmt")
+	if d.cfg.Out == "" {
+		dir = filepath.Join(os.TempDir(), "c18fmt")
+	}
+	_ = os.MkdirAll(dir, 0o755)
+	for i := 0; i < n; i++ {
+		cl := commonL{
+			serverAddr: g.pick([]string{"", "127.0.0.1", "frps.example.com", "::1"}),
+			serverPort: g.pickInt([]int64{0, 7000, 65535}),
+			user:       g.pick([]string{"", "", "user", "ünï"}),
+			token:      g.pick([]string{"", "secret", `p"w\d`, "日本"}),
+			logLevel:   g.pick([]string{"", "debug", "info"}),
+			poolCount:  g.pickInt([]int64{0, 1, 5}),
+			protocol:   g.pick([]string{"", "tcp", "kcp", "quic", "websocket"}),
+			webPort:    g.pickInt([]int64{0, 7400}),
+		}
+		var orig []v1.ProxyConfigurer
+		np := 1 + g.intn(3)
+		tree := g.commonTree(cl)
+		plist := []obj{}
+		for k := 0; k < np; k++ {
+			c := g.proxyCfg(g.pick(proxyTypes))
+			orig = append(orig, c)
+			plist = append(plist, g.proxyTree(c))
+		}
+		tree = append(tree, kv{"proxies", plist})
+		docs := render(tree)
+		st["documents"]++
+		wantProxies := []string{}
+		for _, c := range orig {
+			wantProxies = append(wantProxies, coqCfg(c))
+		}
+		wantCommon := fmt.Sprintf("addr=%q port=%d user=%q token=%q level=%q pool=%d proto=%q web=%d", cl.serverAddr, cl.serverPort,
+			cl.user, cl.token, cl.logLevel, cl.poolCount, cl.protocol, cl.webPort)
+
+		// LoadConfigure, both modes, three formats: identical to each other and to the source
+		for _, strict := range []bool{false, true} {
+			for _, f := range formatNames {
+				var all v1.ClientConfig
+				if err := config.LoadConfigure(docs[f], &all, strict); err != nil {
+					d.fail("format-load:"+f, fmt.Sprintf("a valid %s document is rejected (strict=%v): %v", f, strict, err), string(docs[f]))
+					continue
+				}
+				st["loads"]++
+				gotCommon := fmt.Sprintf("addr=%q port=%d user=%q token=%q level=%q pool=%d proto=%q web=%d", all.ServerAddr, all.ServerPort,
+					all.User, all.Auth.Token, all.Log.Level, all.Transport.PoolCount, all.Transport.Protocol, all.WebServer.Port)
+				if gotCommon != wantCommon {
+					d.fail("format-structure:"+f+":common", "the common section loaded from "+f+" differs from the logical configuration",
+						gotCommon+" vs "+wantCommon+"\n"+string(docs[f]))
+				}
+				if len(all.Proxies) != len(orig) {
+					d.fail("format-structure:"+f+":count", "number of proxies differs", string(docs[f]))
+					continue
+				}
+				for k := range orig {
+					got := coqCfg(all.Proxies[k].ProxyConfigurer)
+					if got != wantProxies[k] {
+						d.fail("format-structure:"+f+":"+orig[k].GetBaseConfig().Type+":"+
+							firstDiff(reflect.ValueOf(orig[k]).Elem(), reflect.ValueOf(all.Proxies[k].ProxyConfigurer).Elem(), ""),
+							"the structure loaded from "+f+" differs from the logical configuration it was written from",
+							"want "+wantProxies[k]+" got "+got+"\n"+string(docs[f]))
+					}
+				}
+			}
+		}
+
+		// the file entry point (template rendering, Complete): three formats agree, defaults applied identically
+		if i%3 == 0 {
+			var dumps []string
+			for _, f := range formatNames {
+				p := filepath.Join(dir, "doc."+f)
+				if f == "toml" && g.chance(0.5) {
+					p = filepath.Join(dir, "doc.ini") // the extension must not matter
+				}
+				_ = os.WriteFile(p, docs[f], 0o644)
+				cc, pcs, _, legacy, err := config.LoadClientConfig(p, true)
+				_ = os.Remove(p)
+				if err != nil || legacy {
+					d.fail("format-file-load:"+f, fmt.Sprintf("LoadClientConfig rejects a valid %s file: %v legacy=%v", f, err, legacy), string(docs[f]))
+					continue
+				}
+				items := []string{commonDump(cc)}
+				for _, pc := range pcs {
+					items = append(items, coqCfg(pc))
+				}
+				dumps = append(dumps, strings.Join(items, "\n"))
+			}
+			st["file_loads"]++
+			for k := 1; k < len(dumps); k++ {
+				if dumps[k] != dumps[0] {
+					d.fail("format-defaults-differ:"+formatNames[k], "LoadClientConfig (defaults applied) gives different structures for toml and "+formatNames[k],
+						dumps[0]+"\n--- vs ---\n"+dumps[k])
+				}
+			}
+			// defaults: the completed proxies equal the source completed with the same user prefix
+			if len(dumps) == 3 {
+				items := []string{}
+				for _, c := range orig {
+					cp := reflect.New(reflect.TypeOf(c).Elem())
+					cp.Elem().Set(reflect.ValueOf(c).Elem())
+					e := cp.Interface().(v1.ProxyConfigurer)
+					e.Complete(cl.user)
+					items = append(items, coqCfg(e))
+				}
+				got := strings.SplitN(dumps[0], "\n", 2)
+				if len(got) == 2 && got[1] != strings.Join(items, "\n") {
+					d.fail("format-defaults", "proxies returned by LoadClientConfig differ from the logical configuration completed with the user prefix",
+						got[1]+"\n--- vs ---\n"+strings.Join(items, "\n"))
+				}
+			}
+		}
+
+		// an unknown key at one nesting level
+		var spots []string
+		walkObjs(deepCopy(tree), "top", func(label string, at *obj) { spots = append(spots, label) })
+		target := g.intn(len(spots))
+		bad := deepCopy(tree)
+		idx := 0
+		label := ""
+		walkObjs(bad, "top", func(l string, at *obj) {
+			if idx == target {
+				label = l
+				pos := g.intn(len(*at) + 1)
+				nk := kv{g.pick([]string{"unknownField", "remotePorts", "Name2", "x-y"}), g.pick([]string{"v", ""})}
+				*at = append((*at)[:pos], append(obj{nk}, (*at)[pos:]...)...)
+			}
+			idx++
+		})
+		// normalise the level label (drop proxy indices) for the statistics
+		levels[label]++
+		bdocs := render(bad)
+		for _, f := range formatNames {
+			var all v1.ClientConfig
+			if err := config.LoadConfigure(bdocs[f], &all, true); err == nil {
+				d.fail("strict-accepts-unknown:"+f+":"+label, "strict mode accepts a document with an unknown field at "+label+" ("+f+")", string(bdocs[f]))
+			} else {
+				st["strict_unknown_rejected"]++
+			}
+			var all2 v1.ClientConfig
+			if err := config.LoadConfigure(bdocs[f], &all2, false); err != nil {
+				d.fail("nonstrict-rejects-unknown:"+f+":"+label, "non-strict mode rejects a document with an unknown field at "+label+" ("+f+"): "+err.Error(), string(bdocs[f]))
+			} else {
+				st["nonstrict_unknown_ignored"]++
+				for k := range orig {
+					if k < len(all2.Proxies) && coqCfg(all2.Proxies[k].ProxyConfigurer) != wantProxies[k] {
+						d.fail("nonstrict-unknown-changes-structure:"+f, "an ignored unknown field changes the loaded structure", string(bdocs[f]))
+					}
+				}
+			}
+		}
+	}
+	out := map[string]any{}
+	for k, v := range st {
+		out[k] = v
+	}
+	out["unknown_field_levels"] = levels
+	return out
+}
